@@ -102,6 +102,40 @@ def step (_ : Unit) (j : Json) : Unit × Json :=
               ("incs", Json.arr (incs.map intJ).toArray),
               ("out", Json.arr (out.map ratToJson).toArray)]))
         | _, _ => pure (errJson "NonTermination")
+    | "reliability" =>
+        -- `_pixel_reliability(phi, mask)` in units of π² (null = inf) and, for a given order of pixel pairs,
+        -- the edge reliabilities along it, whether it is ascending (ties free) and a permutation of the masked pairs
+        let H ← natField j "H"; let W ← natField j "W"
+        let phiA ← ratArr (← field j "phi")
+        let phi : Nat → Rat := fun i => phiA.getD i 0
+        let mask ← maskFn j "mask"
+        let wrap ← boolField j "wrap"
+        let order ← pairList (← field j "order")
+        let rel := pixelReliability wrapToPiRat H W phi mask
+        let optJ : Option Rat → Json := fun o => match o with | some q => ratToJson q | none => Json.null
+        pure (okJson (Json.mkObj [
+          ("R", Json.arr ((List.range (H * W)).map fun i => optJ (rel i)).toArray),
+          ("rel", Json.arr (order.map fun p => optJ (edgeRel rel p)).toArray),
+          ("ascending", Json.bool (ascendingIn rel order)),
+          ("perm", Json.bool (isPermPairs order (maskedPairs H W mask wrap)))]))
+    | "bf_stack" =>
+        let H ← natField j "H"; let W ← natField j "W"
+        let bfA ← boolArr (← field j "bf_mask")
+        let two ← boolField j "two_pass"
+        let imgsJ ← arrField j "images"
+        let imgs ← imgsJ.toList.mapM fun im => do
+          let maskBf ← boolArr (← field im "mask_bf")
+          let phase ← ratArr (← field im "phase")
+          let o1 ← pairList (← field im "order1")
+          let o2 ← pairList (← field im "order2")
+          pure ({ maskBf := maskBf.toList, phaseBf := phase.toList, order1 := o1, order2 := o2 } : BfImage Rat)
+        let res := unwrapBfStack half H W (fun i => bfA.getD i false) two imgs
+        pure (okJson (Json.arr (res.map fun r => match r with
+          | none => Json.null
+          | some (br, out) =>
+            let b := match br with
+              | .noMask => "noMask" | .smallRange => "smallRange" | .onePass => "onePass" | .twoPass => "twoPass"
+            Json.mkObj [("branch", Json.str b), ("out", Json.arr (out.map ratToJson).toArray)]).toArray))
     | "bf" =>
         let H ← natField j "H"; let W ← natField j "W"
         let bfA ← boolArr (← field j "bf_mask")
